@@ -89,7 +89,7 @@ var baseProfile = Profile{
 	PHeuristic: 0.2, PErrReply: 0.1, PBodyFail: 0.0, PSpelling: 0.3, PLocation: 0.3, POnlyIfCached: 0.1,
 	PRange: 0.03, PConnHdr: 0.1, PCCSpell: 0.15, PRepeat: 0.06,
 	Statuses:    []int{200, 200, 200, 200, 200, 200, 203, 204, 301, 302, 307, 308, 404, 410, 500, 503, 206},
-	Methods:     []string{"POST", "PUT", "DELETE", "PATCH", "HEAD", "OPTIONS", "PROPFIND", "MKCOL", "FOO"},
+	Methods:     []string{"POST", "PUT", "DELETE", "PATCH", "HEAD", "OPTIONS", "PROPFIND", "MKCOL", "FOO", ""}, // "": a hand-built request; net/http sends it as GET, the cache does not know that
 	URLs:        2,
 	SWRTimeouts: []time.Duration{0, 0, 5 * time.Second, 2 * time.Second},
 }
@@ -781,7 +781,7 @@ func init() {
 		p.NReq = [2]int{4, 8}
 		p.PUnsafe, p.PLocation, p.URLs, p.PVary, p.PErrReply = 0.35, 0.6, 4, 0.3, 0.1
 		p.PReqCC, p.PSpelling, p.PConnHdr, p.PRange = 0.15, 0.5, 0.0, 0.02
-		p.Methods = []string{"POST", "PUT", "DELETE", "PATCH", "HEAD", "OPTIONS", "PROPFIND", "MKCOL", "FOO", "post", "LOCK", "QUERY", "TRACE"}
+		p.Methods = []string{"POST", "PUT", "DELETE", "PATCH", "HEAD", "OPTIONS", "PROPFIND", "MKCOL", "FOO", "post", "LOCK", "QUERY", "TRACE", ""}
 	})
 	profiles["vary"] = derive("vary", func(p *Profile) {
 		p.NReq = [2]int{4, 9}
